@@ -131,12 +131,18 @@ func (c *Chunker) Next() (*proto.LoadChunkRequest, error) {
 		}, nil
 	}
 
+	// The buffer goes back to the pool when this function returns, so the
+	// chunk must own a copy of the compressed data. Otherwise the next call to
+	// Next, on this or any other Chunker, overwrites the data of this chunk.
+	data := make([]byte, buf.Len())
+	copy(data, buf.Bytes())
+
 	c.sequenceNum++
 	return &proto.LoadChunkRequest{
 		StreamId:    c.streamID,
 		SequenceNum: c.sequenceNum,
 		IsLast:      totalRead < c.chunkSize,
-		Data:        buf.Bytes(),
+		Data:        data,
 	}, nil
 }
 
